@@ -18,9 +18,13 @@
 (*   MulRmvUsesPublic  scaled operator's _rmv goes through operand.rmv     *)
 (*   AdjMvFallsBack    .H.mv of an operator without _rmv falls back to     *)
 (*                     the operand's public rmv (adjoint trick)            *)
+(*   MatmulNotHerm     a product of operators is not flagged Hermitian     *)
+(*                     unless the caller says so (two Hermitian operands   *)
+(*                     need not commute: S1 S2 # S2 S1 for the two         *)
+(*                     Hermitian-flagged leaves)                           *)
 (***************************************************************************)
 EXTENDS Integers, Sequences, FiniteSets, TLC
-CONSTANTS MulRmvUsesPublic, AdjMvFallsBack, Depth
+CONSTANTS MulRmvUsesPublic, AdjMvFallsBack, MatmulNotHerm, Depth
 
 \* ---------- 2x2 integer matrices <<a,b,c,d>> (row major), vectors <<x,y>>
 MV(m, x) == << m[1]*x[1] + m[2]*x[2], m[3]*x[1] + m[4]*x[2] >>
@@ -35,12 +39,13 @@ FromCols(c1, c2) == <<c1[1], c2[1], c1[2], c2[2]>>
 I2 == <<1, 0, 0, 1>>
 
 \* ---------- leaves
-LeafMat == [ L1 |-> <<1,2,3,5>>, L2 |-> <<2,-1,0,3>>, S1 |-> <<2,1,1,4>> ]   \* S1 symmetric
+LeafMat == [ L1 |-> <<1,2,3,5>>, L2 |-> <<2,-1,0,3>>, S1 |-> <<2,1,1,4>>, S2 |-> <<1,3,3,-2>> ]   \* S1, S2 symmetric, S1 S2 # S2 S1
 LeafKinds == { [id |-> "L1", caps |-> {}, herm |-> FALSE, mat |-> FALSE],                    \* _mv only
                [id |-> "L2", caps |-> {"rmv"}, herm |-> FALSE, mat |-> FALSE],               \* _mv + _rmv
                [id |-> "L1", caps |-> {"mm"}, herm |-> FALSE, mat |-> FALSE],                \* _mv + _mm
                [id |-> "L2", caps |-> {"rmv","mm","rmm"}, herm |-> FALSE, mat |-> FALSE],    \* all products
                [id |-> "S1", caps |-> {}, herm |-> TRUE, mat |-> FALSE],                     \* Hermitian-flagged, _mv only
+               [id |-> "S2", caps |-> {}, herm |-> TRUE, mat |-> FALSE],                     \* a second one that does not commute with the first
                [id |-> "L2", caps |-> {"rmv","mm","rmm","fm"}, herm |-> FALSE, mat |-> TRUE] }  \* MatrixLinearOperator
 Leaf(k) == [t |-> "leaf", k |-> k]
 Tag(e) == e.k.id \o (IF "rmv" \in e.k.caps THEN "r" ELSE "") \o (IF "mm" \in e.k.caps THEN "m" ELSE "")
@@ -50,7 +55,7 @@ Tag(e) == e.k.id \o (IF "rmv" \in e.k.caps THEN "r" ELSE "") \o (IF "mm" \in e.k
 IsMat(e) == e.t = "leaf" /\ e.k.mat
 Dense(e) == e.t = "mat2" \/ IsMat(e)
 Herm(e) == CASE e.t = "leaf" -> e.k.herm
-             [] e.t = "matmul" -> FALSE
+             [] e.t = "matmul" -> e.herm
              [] OTHER -> e.herm
 \* the class of every composed operator defines _rmv; leaves define what their kind says
 Caps(e) == CASE e.t = "leaf" -> e.k.caps
@@ -73,7 +78,7 @@ MkMul(e, f) == IF IsMat(e) \/ e.t = "mat2" THEN [t |-> "mat2", m |-> MScale(Den(
 MkAdd(a, b, s) == IF Dense(a) /\ Dense(b) THEN [t |-> "mat2", m |-> MAdd(Den(a), Den(b), s), herm |-> Sym(MAdd(Den(a), Den(b), s))]
                   ELSE [t |-> "add", a |-> a, b |-> b, s |-> s, herm |-> Herm(a) /\ Herm(b)]
 MkMatmul(a, b) == IF Dense(a) /\ Dense(b) THEN [t |-> "mat2", m |-> MM(Den(a), Den(b)), herm |-> FALSE]   \* is_hermitian=False given
-                  ELSE [t |-> "matmul", a |-> a, b |-> b]
+                  ELSE [t |-> "matmul", a |-> a, b |-> b, herm |-> IF MatmulNotHerm THEN FALSE ELSE Herm(a) /\ Herm(b)]
 
 \* ---------- results
 Ok(v, p) == [ok |-> TRUE, v |-> v, p |-> p]
